@@ -98,6 +98,19 @@ def make_case(train_trees, sep, style, level, test_units, kind, thr, pwb, family
                                                pwb=None if pwb is None else float(pwb))))
             except Exception as e:  # noqa
                 out = ('raise', type(e).__name__)
+            if out[0] == 'ok':
+                # ONE trained summary serves several segmenters: the other model types, then the first call again
+                for k2 in KINDS:
+                    try:
+                        list(dibs.segment(list(test), m, type=k2, threshold=0.3))
+                    except ZeroDivisionError:      # pwb estimated on a corpus of one-unit utterances
+                        pass
+                again = list(dibs.segment(list(test), m, type=kind, threshold=float(thr), pwb=None if pwb is None else float(pwb)))
+                summ2 = dict(nlines=m.summary['nlines'], nwords=m.summary['nwords'], nphones=m.summary['nphones'], lexicon=dict(m.lexicon),
+                             phrase_initial={k[0]: v for k, v in m.phrase_initial.items()}, phrase_final={k[0]: v for k, v in m.phrase_final.items()},
+                             internal=dict(m.internal_diphones), spanning=dict(m.spanning_diphones), diphones=dict(m.diphones))
+                if again != out[1] or summ2 != summ:
+                    raise AssertionError('a CorpusSummary used by several segmenters changed, or gives another answer the second time')
             return summ, out
         return call_impl(f)
 
@@ -179,7 +192,8 @@ def main():
     rng = ck.rng
     cases = []
     n = 5000 if ck.thorough else 500
-    seps = [(' ', ';esyll', ';eword'), ('_', ';esyll', ';eword'), (None, ';esyll', ';eword'), (' ', None, ';eword'), ('_', '=', '@@')]
+    seps = [(' ', ';esyll', ';eword'), ('_', ';esyll', ';eword'), (None, ';esyll', ';eword'), (' ', None, ';eword'), ('_', '=', '@@'),
+            ('_', None, ' '), ('_', '=', ';e w')]      # a word separator that is, or contains, a space
     for k in range(n):
         fam = ['ascii', 'multi', 'ipa'][k % 3]
         phones = sl.PHONES[fam][:rng.randint(2, 5)]
